@@ -229,4 +229,57 @@ def insphereAdaptive (mant : α → Int) (a b c d e : V3 α) : Int :=
 
 end Filter
 
+/-! ### rescaling of the simulation box into [1,2) (`NewVoronoiBox` constructor and
+`NewVoronoiGrid` constructor, `NewVoronoiGrid.cpp:136-200`) -/
+section Rescale
+variable {α : Type} [Add α] [Sub α] [Mul α] [Div α] [LT α] [DecidableLT α] [OfScientific α]
+
+/-- the four vertices of the large all-encompassing tetrahedron (`NewVoronoiBox(box)`) -/
+structure Tetra (α : Type) where
+  v0 : V3 α
+  v1 : V3 α
+  v2 : V3 α
+  v3 : V3 α
+
+/-- `NewVoronoiBox::NewVoronoiBox(const Box<> box)` -/
+def boxTetra (anchor sides : V3 α) : Tetra α :=
+  let maxSide := amax (amax sides.x sides.y) sides.z
+  { v0 := ⟨anchor.x - sides.x, anchor.y - sides.y, anchor.z - sides.z⟩
+    v1 := ⟨anchor.x - sides.x + 9.0 * maxSide, anchor.y - sides.y, anchor.z - sides.z⟩
+    v2 := ⟨anchor.x - sides.x, anchor.y - sides.y + 9.0 * maxSide, anchor.z - sides.z⟩
+    v3 := ⟨anchor.x - sides.x, anchor.y - sides.y, anchor.z - sides.z + 9.0 * maxSide⟩ }
+
+/-- `max_anchor -= min_anchor; max_anchor *= (1. + 4. * DBL_EPSILON)`: the padded extent of
+EACH axis is the one of that axis (`k` = the constant `1 + 4 DBL_EPSILON`) -/
+def paddedExtent (k : α) (t : Tetra α) : V3 α :=
+  ⟨(t.v1.x - t.v0.x) * k, (t.v2.y - t.v0.y) * k, (t.v3.z - t.v0.z) * k⟩
+
+/-- `1. + (x - min_anchor) / max_anchor`, one coordinate -/
+def rescale1 (x mn ext : α) : α := 1.0 + (x - mn) / ext
+
+/-- the same for a point, every axis with its own minimum and extent -/
+def rescaleP (p mn ext : V3 α) : V3 α :=
+  ⟨rescale1 p.x mn.x ext.x, rescale1 p.y mn.y ext.y, rescale1 p.z mn.z ext.z⟩
+
+/-- what the `NewVoronoiGrid` constructor stores: rescaled box (bottom, top corner) and the
+rescaled tetrahedron -/
+structure Rescaled (α : Type) where
+  bottom : V3 α
+  top : V3 α
+  tet : Tetra α
+  mn : V3 α
+  ext : V3 α
+
+def rescaleBox (k : α) (anchor sides : V3 α) : Rescaled α :=
+  let t := boxTetra anchor sides
+  let mn := t.v0
+  let ext := paddedExtent k t
+  { bottom := rescaleP anchor mn ext
+    top := rescaleP ⟨anchor.x + sides.x, anchor.y + sides.y, anchor.z + sides.z⟩ mn ext
+    tet := ⟨rescaleP t.v0 mn ext, rescaleP t.v1 mn ext, rescaleP t.v2 mn ext, rescaleP t.v3 mn ext⟩
+    mn := mn
+    ext := ext }
+
+end Rescale
+
 end CMacVerif.Predicates
